@@ -61,6 +61,12 @@ type Ctx struct {
 	outDir   string
 	deadline time.Time // parent process: no new worker is started after this
 	late     map[string]bool
+	// settings of the next RunCases call (reset by it): cases per worker process, the executable the
+	// workers run (default: this one), extra environment, seconds allowed per case
+	Chunk      int
+	WorkerExe  string
+	WorkerEnv  []string
+	CaseBudget int
 }
 
 func (c *Ctx) Thorough() bool { return c.Tier == "thorough" }
@@ -146,6 +152,19 @@ func (c *Ctx) RunCases(group string, n int, run func(c *Ctx, k int, rng *rand.Ra
 		return
 	}
 	chunk := 250
+	if c.Chunk > 0 {
+		chunk = c.Chunk
+	}
+	workerExe := os.Args[0]
+	if c.WorkerExe != "" {
+		workerExe = c.WorkerExe
+	}
+	workerEnv := c.WorkerEnv
+	perCase := time.Second
+	if c.CaseBudget > 0 {
+		perCase = time.Duration(c.CaseBudget) * time.Second
+	}
+	c.Chunk, c.WorkerExe, c.WorkerEnv, c.CaseBudget = 0, "", nil, 0
 	type job struct {
 		from, to int
 		dir      string
@@ -167,11 +186,11 @@ func (c *Ctx) RunCases(group string, n int, run func(c *Ctx, k int, rng *rand.Ra
 			return
 		}
 		os.MkdirAll(j.dir, 0o755)
-		limit := 20*time.Second + time.Duration(j.to-j.from)*time.Second
+		limit := 20*time.Second + time.Duration(j.to-j.from)*perCase
 		cctx, cancel := context.WithTimeout(context.Background(), limit)
 		defer cancel()
-		cmd := exec.CommandContext(cctx, os.Args[0], c.Rep.Property, "-tier", c.Tier, "-seed", fmt.Sprint(c.Seed), "-out", j.dir)
-		cmd.Env = append(os.Environ(), fmt.Sprintf("VERIF_WORKER=%s:%d:%d", group, j.from, j.to), "GOMEMLIMIT=3GiB")
+		cmd := exec.CommandContext(cctx, workerExe, c.Rep.Property, "-tier", c.Tier, "-seed", fmt.Sprint(c.Seed), "-out", j.dir)
+		cmd.Env = append(append(os.Environ(), fmt.Sprintf("VERIF_WORKER=%s:%d:%d", group, j.from, j.to), "GOMEMLIMIT=3GiB"), workerEnv...)
 		var eb bytes.Buffer
 		cmd.Stderr = &eb
 		j.err = cmd.Run()
@@ -328,9 +347,11 @@ func main() {
 	if c.worker != "" {
 		c.maxFails = 100000
 		// a runaway allocation of the implementation must end this worker, not the machine
-		var lim syscall.Rlimit
-		lim.Cur, lim.Max = 6<<30, 6<<30
-		syscall.Setrlimit(syscall.RLIMIT_AS, &lim)
+		if os.Getenv("VERIF_NO_RLIMIT") == "" { // (the race detector maps terabytes of shadow memory)
+			var lim syscall.Rlimit
+			lim.Cur, lim.Max = 6<<30, 6<<30
+			syscall.Setrlimit(syscall.RLIMIT_AS, &lim)
+		}
 	}
 	t0 := time.Now()
 	budget := 1500
